@@ -422,10 +422,16 @@ def binop(ctx):
         while body.get("k") == "unary" and body["op"] == "!":
             neg, body = not neg, resolve(body["e"])
         good = False
-        if len(pb) == 1 and neg and body.get("k") == "mcall" and body["name"] == "contains" and peel(body["recv"]).get("k") == "local":
-            arg = field_path(body["args"][0])
-            good = bool(arg) and arg[1] == pb[0][1] and arg[2] == ["guard"]
-            shared.add(canon(peel(body["recv"])["id"]))
+        # membership of the entry's guard in the shared set: `S.contains(&g)` or, for a sorted vector, `S.binary_search(&g).is_ok()`
+        mem = None
+        if body.get("k") == "mcall" and body["name"] == "contains" and peel(body["recv"]).get("k") == "local":
+            mem = (peel(body["recv"]), body["args"][0])
+        elif body.get("k") == "mcall" and body["name"] == "is_ok" and peel(body["recv"]).get("k") == "mcall" and peel(body["recv"])["name"] == "binary_search" and peel(peel(body["recv"])["recv"]).get("k") == "local":
+            mem = (peel(peel(body["recv"])["recv"]), peel(body["recv"])["args"][0])
+        if len(pb) == 1 and neg and mem is not None:
+            arg = field_path(resolve(mem[1]))
+            good = bool(arg) and arg[1] is not None and canon(arg[1]) == canon(pb[0][1]) and arg[2] == ["guard"]
+            shared.add(canon(mem[0]["id"]))
         okr = okr and good
     okr = okr and len(shared) == 1
     ctx.inst("R20.4", "apply_bin_op:fast-path-removes-from-both", okr, f["span"], "after the common-guard fast path the processed entries must be removed from BOTH operands (found retain on %s)" % sides, sample=sides)
@@ -564,7 +570,7 @@ def coalesce(ctx):
         idx = []
         for a in ors[0]["args"]:
             fl = None
-            e = peel(a)
+            e = peel(norm_.value_source(ix, defs, a))
             if e.get("k") == "field" and e["name"] == "guard":
                 src = norm_.value_source(ix, defs, e["e"])
                 b_, ms_ = chain(src)
